@@ -54,7 +54,25 @@ func c17Run(r *Run) {
 				tparam = sig.Params().At(i)
 			}
 		}
-		if tparam == nil {
+		// the target type may be held by the receiver (a per-parameter converter object chosen at
+		// registration time: stringParam{goType}.accept(value))
+		targetName := ""
+		if tparam != nil {
+			targetName = tparam.Name()
+		} else if fd.Recv != nil && len(fd.Recv.List) == 1 && len(fd.Recv.List[0].Names) == 1 {
+			rt := info.TypeOf(fd.Recv.List[0].Type)
+			if pt, ok := rt.(*types.Pointer); ok {
+				rt = pt.Elem()
+			}
+			if st, ok := rt.Underlying().(*types.Struct); ok {
+				for i := 0; i < st.NumFields(); i++ {
+					if isReflectType(st.Field(i).Type()) {
+						targetName = fd.Recv.List[0].Names[0].Name + "." + st.Field(i).Name()
+					}
+				}
+			}
+		}
+		if targetName == "" {
 			continue
 		}
 		fk := funcKey(rp, fd)
@@ -97,10 +115,10 @@ func c17Run(r *Run) {
 			}
 			n++
 			key := fmt.Sprintf("%s#converts-to-parameter-type", fk)
-			if c17ConvertedTo(res, tparam.Name()) {
+			if c17ConvertedTo(res, targetName) {
 				r.ok(key, rs.Pos(), "the value built for the Go parameter is converted to the parameter's exact type")
 			} else {
-				r.bad(key, rs.Pos(), fmt.Sprintf("returns %s without converting it to %s: reflect.Value.Call panics for any parameter whose type is not exactly the static Go type (e.g. int64, or a named string type)", exprStr(res), tparam.Name()))
+				r.bad(key, rs.Pos(), fmt.Sprintf("returns %s without converting it to %s: reflect.Value.Call panics for any parameter whose type is not exactly the static Go type (e.g. int64, or a named string type)", exprStr(res), targetName))
 			}
 			return true
 		})
@@ -136,6 +154,11 @@ func c17Run(r *Run) {
 						// default arm must return an error
 						ast.Inspect(cc, func(m ast.Node) bool {
 							if rs, ok := m.(*ast.ReturnStmt); ok && len(rs.Results) == 2 && exprStr(rs.Results[1]) != "nil" {
+								hasDefaultErr = true
+							}
+							// the arm may hand out a converter object whose conversion always fails
+							// (unsupportedParam{goType}): the error is raised when the parameter is bound
+							if rs, ok := m.(*ast.ReturnStmt); ok && len(rs.Results) == 1 && c17AlwaysFailing(rp, info.TypeOf(rs.Results[0])) {
 								hasDefaultErr = true
 							}
 							return true
@@ -911,4 +934,37 @@ func c17ZeroTests(r *Run, rp *packages.Package) {
 
 func within(outer ast.Node, inner ast.Node) bool {
 	return outer != nil && inner != nil && outer.Pos() <= inner.Pos() && inner.End() <= outer.End()
+}
+
+// c17AlwaysFailing: t is a type of the package all of whose methods with an error result return a
+// non-nil error on every path (and it has at least one such method).
+func c17AlwaysFailing(p *packages.Package, t types.Type) bool {
+	nt := namedOf(t)
+	if nt == nil || nt.Obj().Pkg() != p.Types {
+		return false
+	}
+	n := 0
+	for _, fd := range funcDecls(p) {
+		if fd.Recv == nil || fd.Body == nil || namedOf(p.TypesInfo.TypeOf(fd.Recv.List[0].Type)) != nt {
+			continue
+		}
+		sig := p.TypesInfo.Defs[fd.Name].Type().(*types.Signature)
+		if sig.Results().Len() == 0 || !isErrorType(sig.Results().At(sig.Results().Len()-1).Type()) {
+			continue
+		}
+		n++
+		ok := true
+		ast.Inspect(fd.Body, func(m ast.Node) bool {
+			if rs, isRet := m.(*ast.ReturnStmt); isRet {
+				if len(rs.Results) == 0 || exprStr(rs.Results[len(rs.Results)-1]) == "nil" {
+					ok = false
+				}
+			}
+			return true
+		})
+		if !ok {
+			return false
+		}
+	}
+	return n > 0
 }
